@@ -77,7 +77,7 @@ class C09(IRProp):
     id = "C09"
     prop_file = "Properties/C09.v"
     tag = "c09"
-    genopts = dict(max_mods=2, with_aux=False)
+    genopts = dict(max_mods=2, with_aux=False, whole_del=0.2, data_first=0.3)
     trusted_base = IRProp.base_trusted
     assumptions = ["in the one-at-a-time runs a pending modification is located again by the address of its byte (block starting there inside "
                    "the region of its original block, else the block ending there); temporary label suffixes are normalised; "
@@ -85,8 +85,35 @@ class C09(IRProp):
     level_rule = "the IR correspondence cases; each also applied one modification per RewritingContext and compared with the batch result"
     oracle_text = "complete output dump of one apply() with all modifications == dump after one apply() per modification (temporary-label suffixes normalised)"
 
+    def neighbours(self, r):
+        """a fresh ModifyCache on the rewritten module: its neighbouring blocks are the IR's blocks in listing order (a zero-sized
+        block is what is left of code that stood in front of the block at its address)"""
+        import gtirb_functions
+        from gtirb_rewriting._modify.cache import make_modify_cache
+        if r is None or r.get("error") is not None:
+            return []
+        m = r["built"].m
+        if not any(b.size == 0 for b in m.byte_blocks):
+            return []
+        bad = []
+        with make_modify_cache(m, gtirb_functions.Function.build_functions(m)) as cache:
+            for sect in m.sections:
+                want = sorted(sect.byte_blocks, key=lambda b: (b.address, b.size != 0))
+                for k, b in enumerate(want):
+                    prev, nxt = cache.adjacent_blocks(b)
+                    wp, wn = (want[k - 1] if k else None), (want[k + 1] if k + 1 < len(want) else None)
+                    if prev is not wp or nxt is not wn:
+                        bad.append(dict(what=f"fresh ModifyCache: neighbours of the block at {b.address:#x}+{b.size} are "
+                                             f"{[None if x is None else (hex(x.address), x.size) for x in (prev, nxt)]}, the IR has "
+                                             f"{[None if x is None else (hex(x.address), x.size) for x in (wp, wn)]}", finding=None))
+                        return bad
+        return bad
+
     def spec(self, seed, case, r):
         import re
+        nb = self.neighbours(r)
+        if nb:
+            return nb
         if not case.mods:
             return []
         a = apply_batch(case)
